@@ -27,6 +27,18 @@ func init() { register("C10", checkC10) }
 
 var errInjected = errors.New("verif-injected-fault")
 
+// fdDiffSettled: open descriptors now minus fd0. A descriptor the run leaked stays open; one that the test process itself
+// had open for a moment (the framework's journal, a fork in progress) is gone on the next look: the difference is re-read
+// up to 40 times (each look lists /proc/self/fd, some tens of microseconds) and only a persistent one is returned.
+func fdDiffSettled(fd0 int) int {
+	d := fdCount() - fd0
+	for i := 0; i < 40 && d != 0; i++ {
+		runtime.Gosched()
+		d = fdCount() - fd0
+	}
+	return d
+}
+
 func fdCount() int {
 	ents, err := os.ReadDir("/proc/self/fd")
 	if err != nil {
@@ -118,7 +130,7 @@ func runC10Cancel(c *fw.Ctx, v refmatch.Variant, w window, faults map[simnet.Fau
 	}
 	e.w.Unlock()
 	e.close()
-	out.fdDiff = fdCount() - fd0
+	out.fdDiff = fdDiffSettled(fd0)
 	return out
 }
 
@@ -317,7 +329,7 @@ func runC10WrongFamily(c *fw.Ctx, id string, v refmatch.Variant) {
 	opened := len(e.w.Handles)
 	e.w.Unlock()
 	e.close()
-	fdDiff := fdCount() - fd0
+	fdDiff := fdDiffSettled(fd0)
 	tag := fmt.Sprintf("%s target=%s", id, spec.Target)
 	if res.Err == nil {
 		// not claimed either way by C10 (C19 owns "honoured or rejected"); only the closing discipline is judged
